@@ -29,3 +29,117 @@ def classify(prop, v, **ctx):
             v["finding"] = fid
             return fid
     return None
+
+
+# ------------------------------------------------------------------ shared predicates
+
+def closure_names(ref, name):
+    seen, todo = set(), [name]
+    while todo:
+        n = todo.pop()
+        if n in seen or n not in ref.assigns:
+            continue
+        seen.add(n)
+        todo.extend(ref.deps[n])
+    return seen
+
+
+def folded_constant_out_of_range(ode, ref, names):
+    """A Float atom outside float64's normal range in the symbolic stage of `names`
+    (sympy folded e.g. exp(x + c) -> exp(c)*exp(x) with exp(c) beyond 1e308)."""
+    import sympy
+
+    for top in names:
+        for n in closure_names(ref, top):
+            try:
+                ex = ode[n].expr
+            except Exception:
+                continue
+            for f in ex.atoms(sympy.Float):
+                a = abs(f)
+                if a > sympy.Float("1e300") or (a != 0 and a < sympy.Float("1e-300")):
+                    return True
+    return False
+
+
+class NumpyFloatWhere:
+    """numpy proxy whose where() returns float64: the counterfactual 'integer literal
+    branches printed as floats'."""
+
+    def __init__(self):
+        import numpy
+
+        self._np = numpy
+
+    def __getattr__(self, k):
+        return getattr(self._np, k)
+
+    def where(self, c, a, b):
+        return self._np.where(c, a, b).astype(self._np.float64)
+
+
+def int_where_counterfactual(code, fn, ref, pts, judge_fn):
+    """Re-run the generated code with where() forced to float64.  True iff the function then
+    neither raises nor disagrees with the reference at any decidable point."""
+    from ..exec.pyexec import PyModule
+
+    mod = PyModule(code)
+    mod.ns["numpy"] = NumpyFloatWhere()
+    return judge_fn(mod)
+
+
+def has_int_branch_conditional(text):
+    import ast
+    import re
+
+    from ..refmodel.model import RefModel
+
+    try:
+        ref = RefModel.from_text(text)
+    except Exception:
+        return False
+    for node in ref._parsed.values():
+        for n in ast.walk(node):
+            if isinstance(n, ast.Call) and getattr(n.func, "id", "") == "Conditional" and len(n.args) == 3:
+                ok = True
+                for br in n.args[1:]:
+                    b = br
+                    while isinstance(b, ast.UnaryOp):
+                        b = b.operand
+                    if not (isinstance(b, ast.Constant) and isinstance(b.value, int)) and not (
+                        isinstance(b, ast.Call) and getattr(b.func, "id", "") == "Conditional"
+                    ):
+                        ok = False
+                if ok:
+                    return True
+    return False
+
+
+def has_huge_int_literal(text):
+    import re
+
+    for m in re.finditer(r"(?<![\w.])(\d{19,})(?![\w.])", text):
+        if int(m.group(1)) >= 2**63:
+            return True
+    return False
+
+
+@matcher("C01")
+def c01_matchers(v, text="", features=None, ode=None, ref=None, code=None, recheck=None, **kw):
+    d = v.get("detail", {})
+    exc = d.get("exc", "") or ""
+    kind = v.get("kind")
+    names = [d["name"]] if d.get("name") else (list(ref.derivs.values()) if ref else [])
+    if kind in ("value", "rhs_raises") and ode is not None and ref is not None:
+        if (kind == "value" or "name 'inf'" in exc or "name 'nan'" in exc) and folded_constant_out_of_range(ode, ref, names):
+            return "C01-folded-constant-out-of-float-range"
+    if kind == "rhs_raises" and ("loop of ufunc does not support argument 0 of type int" in exc or "Python int too large to convert to C long" in exc) and has_huge_int_literal(text):
+        return "C01-huge-int-literal-in-numpy-call"
+    if kind in ("value", "rhs_raises") and code and recheck and has_int_branch_conditional(text):
+        if kind == "value" or "Integers to negative integer powers" in exc:
+            try:
+                if int_where_counterfactual(code, "rhs", ref, None, recheck):
+                    return "C01-integer-branches-make-int64-where"
+            except Exception:
+                return None
+    return None
